@@ -21,6 +21,41 @@ func fieldKey(owner *types.Named, f *types.Var) string {
 	return p + "." + owner.Obj().Name() + "." + f.Name()
 }
 
+// livenessFacts: facts stating that every reference reachable (through slices,
+// maps and pointers, to a small depth) from the entry-heap value `term` of type
+// t was allocated before entry (<= alloc0). binders are the quantified
+// variables `term` mentions.
+func (fv *FV) livenessFacts(term string, t types.Type, binders []string, depth int) []string {
+	if depth > 2 || t == nil {
+		return nil
+	}
+	q := func(body string) string {
+		return fmt.Sprintf("(assert (forall (%s) (! %s :pattern (%s))))", strings.Join(binders, " "), body, term)
+	}
+	if n, ok := types.Unalias(t).(*types.Named); ok && n.Obj().Pkg() != nil && n.Obj().Pkg().Path() == "sync/atomic" && n.Obj().Name() == "Pointer" && fv.sess.sortOf(t) == "Int" {
+		return []string{q(fmt.Sprintf("(<= %s alloc0)", term))}
+	}
+	switch u := types.Unalias(t).Underlying().(type) {
+	case *types.Pointer:
+		return []string{q(fmt.Sprintf("(<= %s alloc0)", term))}
+	case *types.Slice:
+		out := []string{q(fmt.Sprintf("(<= (sq.ref %s) alloc0)", term))}
+		iv := fmt.Sprintf("i%d!h", depth)
+		out = append(out, fv.livenessFacts(fmt.Sprintf("(select (sq.arr %s) %s)", term, iv), u.Elem(), append(append([]string{}, binders...), "("+iv+" Int)"), depth+1)...)
+		return out
+	case *types.Map:
+		if !strings.HasPrefix(fv.sess.sortOf(t), "(GMap ") {
+			return nil
+		}
+		out := []string{q(fmt.Sprintf("(<= (mp.ref %s) alloc0)", term))}
+		kv := fmt.Sprintf("k%d!h", depth)
+		ks := fv.sess.sortOf(u.Key())
+		out = append(out, fv.livenessFacts(fmt.Sprintf("(select (mp.val %s) %s)", term, kv), u.Elem(), append(append([]string{}, binders...), "("+kv+" "+ks+")"), depth+1)...)
+		return out
+	}
+	return nil
+}
+
 // heapInit returns (and registers) the entry-state array for a heap key.
 func (fv *FV) heapInit(key string, hint Val) Val {
 	if v, ok := fv.w.heapSorts[key]; ok {
@@ -30,20 +65,8 @@ func (fv *FV) heapInit(key string, hint Val) Val {
 			fv.sess.decl("heap:"+key, fmt.Sprintf("(declare-const %s %s)", name, sort))
 			// everything stored in the heap at entry was allocated before entry
 			if v.Go != nil && strings.HasPrefix(sort, "(Array Int ") {
-				if n, ok := types.Unalias(v.Go).(*types.Named); ok && n.Obj().Pkg() != nil && n.Obj().Pkg().Path() == "sync/atomic" && n.Obj().Name() == "Pointer" && sort == "(Array Int Int)" {
-					// atomic.Pointer[T] holds a pointer
-					fv.sess.decls = append(fv.sess.decls, fmt.Sprintf("(assert (forall ((r!h Int)) (! (<= (select %s r!h) alloc0) :pattern ((select %s r!h)))))", name, name))
-				}
-				switch u := types.Unalias(v.Go).Underlying().(type) {
-				case *types.Pointer:
-					fv.sess.decls = append(fv.sess.decls, fmt.Sprintf("(assert (forall ((r!h Int)) (! (<= (select %s r!h) alloc0) :pattern ((select %s r!h)))))", name, name))
-				case *types.Slice:
-					fv.sess.decls = append(fv.sess.decls, fmt.Sprintf("(assert (forall ((r!h Int)) (! (<= (sq.ref (select %s r!h)) alloc0) :pattern ((select %s r!h)))))", name, name))
-					if isPointer(u.Elem()) {
-						fv.sess.decls = append(fv.sess.decls, fmt.Sprintf("(assert (forall ((r!h Int) (i!h Int)) (! (<= (select (sq.arr (select %s r!h)) i!h) alloc0) :pattern ((select (sq.arr (select %s r!h)) i!h)))))", name, name))
-					}
-				case *types.Map:
-					fv.sess.decls = append(fv.sess.decls, fmt.Sprintf("(assert (forall ((r!h Int)) (! (<= (mp.ref (select %s r!h)) alloc0) :pattern ((select %s r!h)))))", name, name))
+				for _, f := range fv.livenessFacts(fmt.Sprintf("(select %s r!h)", name), v.Go, []string{"(r!h Int)"}, 0) {
+					fv.sess.decls = append(fv.sess.decls, f)
 				}
 			}
 		}
